@@ -84,6 +84,7 @@ struct th {
 	const char *at;           /* nsync function of the last atomic step outside the semaphore files */
 	unsigned op_sleeps, op_steps;
 	int64_t op_deadline_ns;
+	int op_deadline_strict;
 	unsigned long sleeps;
 	uint64_t rng;
 	int fault_plan[32]; int n_fault; int futex_waits;
@@ -366,6 +367,14 @@ static void deadlock (void) {
 
 static int pick (int forced_switch) {
 	int en[RT_MAXT], n = 0;
+	/* C05: a call with a finite deadline and no cancel note may sleep without a timer only while it acquires a lock */
+	for (int i = 0; i < NT; i++) if (T[i].state == ST_BLOCKED && !T[i].timed && T[i].op && T[i].op_deadline_strict && vclock_ns > T[i].op_deadline_ns + 1000 &&
+					 T[i].at && strcmp (T[i].at, "nsync_mu_lock_slow_") != 0) {
+		char sig[200], detail[400];
+		snprintf (sig, sizeof (sig), "%s.%s", T[i].op, T[i].at);
+		snprintf (detail, sizeof (detail), "thread %d is asleep WITHOUT a timer inside %s (last step in %s) although the call was given the deadline %lld ns and the clock is at %lld ns", i, T[i].op, T[i].at, (long long) T[i].op_deadline_ns, (long long) vclock_ns);
+		die_with ("asleep-past-deadline", sig, detail, 10);
+	}
 	/* natural expiry */
 	for (int i = 0; i < NT; i++) if (T[i].state == ST_BLOCKED && T[i].timed && T[i].deadline_ns <= vclock_ns) { T[i].state = ST_RUN; T[i].timedout = 1; }
 	for (int i = 0; i < NT; i++) if (T[i].state == ST_RUN) en[n++] = i;
@@ -563,7 +572,8 @@ void rt_sleep_us (unsigned us) {
 	else { raw_sleep_ns ((long) (us / 1000000), (long) (us % 1000000) * 1000); }
 }
 void rt_op_deadline (int64_t d) { if (me >= 0) T[me].op_deadline_ns = d; }
-void rt_op_begin (const char *op) { if (me >= 0) { T[me].op = op; T[me].at = NULL; T[me].op_deadline_ns = 0; T[me].op_sleeps = 0; T[me].op_steps = 0; } }
+void rt_op_deadline_strict (int64_t d) { if (me >= 0) { T[me].op_deadline_ns = d; T[me].op_deadline_strict = (d > 0 && d < INT64_MAX / 2); } }
+void rt_op_begin (const char *op) { if (me >= 0) { T[me].op = op; T[me].at = NULL; T[me].op_deadline_ns = 0; T[me].op_deadline_strict = 0; T[me].op_sleeps = 0; T[me].op_steps = 0; } }
 void rt_op_end (void) { if (me >= 0) T[me].op = NULL; }
 unsigned rt_op_sleeps (void) { return (me >= 0 ? T[me].op_sleeps : 0); }
 unsigned rt_op_steps (void) { return (me >= 0 ? T[me].op_steps : 0); }
